@@ -162,12 +162,22 @@ class Env:
 
         def read_received_message(xml_text, validate=True):
             r = orig(xml_text, validate=validate)
-            if self.watch_trees:
+            if self.watch_trees and xml_text is not None and b'<!DOCTYPE' in xml_text:
+                found = []
                 try:
                     root = r.p_msg._doc_root
-                    self.tree_log.append(etree.tostring(root))
-                except Exception:  # noqa: BLE001
-                    pass
+                    for el in root.iter():
+                        if not isinstance(el.tag, str):
+                            continue
+                        for k, v in el.attrib.items():
+                            if self.watch_token in v.encode('utf-8', 'replace') or CANARY_TEXT.decode() in v:
+                                found.append(('attribute', etree.QName(el).localname, k, v[:60]))
+                        for t in (el.text, el.tail):
+                            if t and (self.watch_token in t.encode('utf-8', 'replace') or CANARY_TEXT.decode() in t):
+                                found.append(('text', etree.QName(el).localname, None, t[:60]))
+                except Exception as ex:  # noqa: BLE001
+                    found.append(('walk failed', repr(ex), None, None))
+                self.tree_log.append(found)
             return r
         reader.read_received_message = read_received_message
 
@@ -200,6 +210,21 @@ class Env:
             if not ev.wait(8):
                 self.ctx.not_decided('deferred dispatcher did not reach the barrier within the watchdog')
         return settled
+
+    def prune_subscriptions(self, keep=6):
+        """replayed (still valid) Subscribe requests pile up subscriptions; every notification then goes to all of them."""
+        mine = {s.notification_url for s in self.consumer.subscription_mgr.subscriptions.values()}
+        for mgr in self.provider._subscriptions_managers.values():
+            with mgr._subscriptions.lock:
+                objs = list(mgr._subscriptions.objects)
+                seen = set()
+                for s in objs:
+                    first = s.notify_to_address in mine and s.notify_to_address not in seen
+                    seen.add(s.notify_to_address)
+                    if not first and len(objs) > keep:
+                        s.close_by_subscription_manager()
+                        mgr._subscriptions.remove_object(s)
+        self.last_snap = None
 
     def snapshot(self):
         E = self.E
@@ -517,10 +542,10 @@ def m_path(rng, env, seed, kind=None):
     return raw, {'mut': f'p.{kind}', 'doc': xml if method == 'POST' else None}
 
 
-def _doctype(kind, env, root_name=b's12:Envelope'):
+def _doctype(kind, env, token=EXPANDED.encode()):
     cdir = env.canary_dir
     if kind == 'internal_entity':
-        return b'<!DOCTYPE x [<!ENTITY e "%s">]>' % EXPANDED.encode(), b'&e;'
+        return b'<!DOCTYPE x [<!ENTITY e "%s">]>' % token, b'&e;'
     if kind == 'external_file':
         return b'<!DOCTYPE x [<!ENTITY e SYSTEM "file://%s/canary.txt">]>' % cdir.encode(), b'&e;'
     if kind == 'external_url':
@@ -534,12 +559,12 @@ def _doctype(kind, env, root_name=b's12:Envelope'):
     if kind == 'external_dtd_url':
         return b'<!DOCTYPE x PUBLIC "-//X//Y" "http://127.0.0.1:%d/canary.dtd">' % CANARY_PORT, b''
     if kind == 'billion_laughs':
-        ents = [b'<!ENTITY a0 "%s">' % (EXPANDED.encode() * 10)]
+        ents = [b'<!ENTITY a0 "%s">' % (token * 10)]
         for i in range(1, 9):
             ents.append(b'<!ENTITY a%d "%s">' % (i, (b'&a%d;' % (i - 1)) * 10))
         return b'<!DOCTYPE x [' + b''.join(ents) + b']>', b'&a8;'
     if kind == 'attr_default':
-        return b'<!DOCTYPE x [<!ATTLIST x a CDATA "%s">]>' % EXPANDED.encode(), b''
+        return b'<!DOCTYPE x [<!ATTLIST x a CDATA "%s">]>' % token, b''
     raise ValueError(kind)
 
 
@@ -547,10 +572,12 @@ DOCTYPE_KINDS = ['internal_entity', 'external_file', 'external_url', 'param_enti
                  'billion_laughs', 'attr_default']
 
 
-def m_doctype(rng, env, seed, kind=None):
+def m_doctype(rng, env, seed, kind=None, where=None):
     kind = kind or rng.choice(DOCTYPE_KINDS)
     seed = _post_seed(rng, env, seed)
-    dt, ref = _doctype(kind, env)
+    env.token_counter = getattr(env, 'token_counter', 0) + 1
+    token = f'{EXPANDED}-{env.token_counter}-'.encode()     # unique per request: earlier accepted requests cannot pollute the verdict
+    dt, ref = _doctype(kind, env, token)
     xml = seed['xml']
     m = re.match(rb'\s*<\?xml[^>]*\?>\s*', xml)
     decl, rest = (m.group(0), xml[m.end():]) if m else (b'', xml)
@@ -559,10 +586,10 @@ def m_doctype(rng, env, seed, kind=None):
         dt = dt.replace(b'<!DOCTYPE x', b'<!DOCTYPE ' + root_name.group(1), 1).replace(b'<!ATTLIST x', b'<!ATTLIST ' + root_name.group(1))
     if ref:
         # put the reference where the library echoes / interprets text: MessageID (-> RelatesTo), Action, a handle, any text node
-        where = rng.choice(['MessageID', 'Action', 'To', 'text', 'attr'])
+        where = where or rng.choice(['MessageID', 'Action', 'To', 'text', 'attr', 'attr'])
         pat = {'MessageID': rb'(MessageID[^>]*>)([^<]*)(<)', 'Action': rb'(Action[^>]*>)([^<]*)(<)', 'To': rb'(To[^>]*>)([^<]*)(<)',
                'text': rb'(HandleRef[^>]*>|Givenname[^>]*>|RequestedStringValue[^>]*>|Identifier[^>]*>|Address[^>]*>)([^<]*)(<)',
-               'attr': rb'(Handle=")([^"]*)(")'}[where]
+               'attr': rb'( Handle="|DescriptorHandle="|Dialect="|IsReferenceParameter=")([^"]*)(")'}[where]
         mm = list(re.finditer(pat, rest))
         if mm:
             x = rng.choice(mm)
@@ -577,7 +604,7 @@ def m_doctype(rng, env, seed, kind=None):
         rest = rest.replace(b'Body>', b'Body><xi:include xmlns:xi="http://www.w3.org/2001/XInclude" href="file://%s/canary.txt" parse="text"/>' % env.canary_dir.encode(), 1) \
             if b'Body>' in rest else rest
     doc = decl + dt + rest
-    return render(seed, xml=doc), {'mut': f'd.{kind}', 'doc': doc, 'doctype': True, 'where': where}
+    return render(seed, xml=doc), {'mut': f'd.{kind}', 'doc': doc, 'doctype': True, 'where': where, 'token': token}
 
 
 def m_encoding(rng, env, seed):
@@ -895,6 +922,7 @@ def run_case(env: Env, ctx, role, raw, info, seed_name):
     env.mw_log.clear()
     env.tree_log.clear()
     env.watch_trees = bool(info.get('doctype'))
+    env.watch_token = info.get('token', EXPANDED.encode())
     env.line_budget.reset()
     before = env.last_snap if env.last_snap is not None else env.snapshot()
     env.current_request = raw
@@ -1043,12 +1071,26 @@ def run_case(env: Env, ctx, role, raw, info, seed_name):
     if info.get('doctype'):
         ctx.count('xxe.doctype_requests')
         blob = b''.join(p.body_plain for p in plain_bodies)   # (the stdlib echoes a malformed request LINE in its 400 page: not an expansion)
-        if CANARY_TEXT in blob or EXPANDED.encode() in blob:
-            ctx.witness('xxe.expansion_in_response', 'response contains canary file content / expanded entity text', {**detail, 'response': blob[:600]})
-        for t in env.tree_log:
+        token = info.get('token', EXPANDED.encode())
+        ok_status = [p.status for p in plain_bodies]
+        if CANARY_TEXT in blob or token in blob or (EXPANDED + '-F1LE').encode() in blob:
+            in_attr = info.get('where') == 'attr' and CANARY_TEXT not in blob
+            ctx.witness('xxe.attribute_entity_expanded_in_response' if in_attr else 'xxe.expansion_in_response',
+                        'response contains the expanded text of an entity that the request referenced'
+                        + (' inside an attribute value' if in_attr else ' / canary file content'), {**detail, 'response': blob[:600]})
+        for found in env.tree_log:
             ctx.count('xxe.parsed_trees_checked')
-            if CANARY_TEXT in t or EXPANDED.encode() in t:
-                ctx.witness('xxe.entity_expanded_in_tree', 'parsed request tree contains expanded entity text', {**detail, 'tree': t[:600]})
+            for kind_f, elem, attr, val in found:
+                if kind_f == 'attribute':
+                    ctx.witness('xxe.internal_entity_expanded_in_attribute',
+                                'an entity reference inside an attribute value reaches the library expanded (lxml expands attribute values even with '
+                                'resolve_entities=False); the document carries a DOCTYPE and is not refused',
+                                {**detail, 'element': elem, 'attribute': attr, 'value': val, 'statuses': ok_status, 'doc_head': (info.get('doc') or b'')[:300]})
+                elif kind_f == 'text':
+                    ctx.witness('xxe.entity_expanded_in_tree', 'parsed request tree contains expanded entity text',
+                                {**detail, 'element': elem, 'value': val, 'statuses': ok_status})
+                else:
+                    ctx.count('xxe.tree_walk_failed')
     # ---- (8) rejected => nothing changed
     settled = env.quiesce(plain_bodies)
     after = env.snapshot()
@@ -1089,6 +1131,13 @@ def _directed(env, rng):
             out.append((s, lambda r, e, sd, k=k: m_framing(r, e, sd, k)))
         for k in DOCTYPE_KINDS:
             out.append((s, lambda r, e, sd, k=k: m_doctype(r, e, sd, k)))
+    for s in env.seeds:
+        if s['method'] == 'POST' and re.search(rb'( Handle="|DescriptorHandle="|Dialect=")', s['xml']) and (s['role'], s['name'], 'd') not in post:
+            post[(s['role'], s['name'], 'd')] = s
+            for k, w in (('internal_entity', 'attr'), ('billion_laughs', 'attr'), ('external_file', 'attr'), ('internal_entity', 'text'), ('internal_entity', 'MessageID')):
+                out.append((s, lambda r, e, sd, k=k, w=w: m_doctype(r, e, sd, k, w)))
+    for k in [k for k in post if isinstance(k, tuple)]:
+        del post[k]
     gets = [s for s in env.seeds if s['method'] == 'GET'][:1]
     for s in list(post.values()) + gets:
         for k in ('query_only', 'query_only', 'query_only', 'unknown_first', 'root', 'star', 'depth_less', 'other_service'):
@@ -1119,6 +1168,8 @@ def fuzz(ctx: core.Ctx, env: Env, rng, n, directed=True, mutators=None):
             continue
         shape = run_case(env, ctx, seed['role'], raw, info, seed['name'])
         ctx.case(shape)
+        if i % 400 == 399:
+            env.prune_subscriptions()
         if i in (3, 40, 90):
             ctx.sample({'mutation': info['mut'], 'seed': seed['name'], 'role': seed['role'], 'request_head': raw[:400], 'shape': shape})
         if time.time() > t_end:
@@ -1131,9 +1182,9 @@ def setup_canaries(env, root=None):
     with open(os.path.join(d, 'canary.txt'), 'wb') as f:
         f.write(CANARY_TEXT)
     with open(os.path.join(d, 'canary.dtd'), 'wb') as f:
-        f.write(b'<!ENTITY fromdtd "%s">' % EXPANDED.encode())
+        f.write(b'<!ENTITY fromdtd "%s-F1LE">' % EXPANDED.encode())
     with open(os.path.join(d, 'canary_param.dtd'), 'wb') as f:
-        f.write(b'<!ENTITY fromparam "%s">' % EXPANDED.encode())
+        f.write(b'<!ENTITY fromparam "%s-F1LE">' % EXPANDED.encode())
     with open(os.path.join(d, 'control.txt'), 'wb') as f:
         f.write(b'control')
     env.canary_dir = d
@@ -1229,7 +1280,7 @@ def run(ctx: core.Ctx):
     jobs = []
     configs = [('sync', False, 0), ('async', True, 0), ('sync', True, 512), ('async', False, 0)]
     nw = 12 if q else 15
-    per = 330 if q else 20000
+    per = 330 if q else 18000
     for i in range(nw):
         mode, deferred, chunk = configs[i % len(configs)]
         jobs.append(['w_fuzz', {'i': i, 'n': per, 'mode': mode, 'deferred': deferred, 'chunk': chunk, 'directed': i < 4}])
